@@ -14,7 +14,7 @@ var opKindsModel = []string{
 	"remove", "remove", "removeI", "removeI", "removeI", "removeAbsent",
 	"get", "getI", "getAbsent", "clear", "clone", "clone", "switch", "switch",
 	"inorder", "after", "afterI", "afterI", "afterAbsent", "afterAbsent", "cursor", "cursorI", "cursorI",
-	"asc", "asc", "desc", "desc", "zig", "zig", "drain", "drain", "rm2", "rm2", "rm2", "bulkremove", "prune",
+	"asc", "asc", "desc", "desc", "zig", "zig", "combA", "combD", "drain", "drain", "rm2", "rm2", "rm2", "bulkremove", "prune",
 	"seqKeep", "seqRange", "seqRange",
 }
 
@@ -22,7 +22,7 @@ var opKindsDepth = []string{
 	"add", "add", "add", "addI", "replaceI",
 	"remove", "removeI", "removeI", "removeI", "removeAbsent",
 	"getI", "getAbsent", "clear",
-	"asc", "asc", "asc", "desc", "desc", "zig", "zig", "drain", "drain", "rm2",
+	"asc", "asc", "asc", "desc", "desc", "zig", "zig", "combA", "combD", "drain", "drain", "rm2",
 	"deep", "deep", "deep", "deep", "deep", "deep", "bulkremove", "prune", "clone", "switch", "switch",
 }
 
@@ -34,13 +34,13 @@ func genOp(kinds []string) *rapid.Generator[Op] {
 		case "add", "replace", "remove", "get", "after":
 			op.A = rapid.IntRange(0, 47).Draw(t, "x")
 		case "clear":
-		case "ascL", "descL":
+		case "ascL", "descL", "combAL", "combDL":
 			op.A = rapid.IntRange(0, 1399).Draw(t, "a")
 		default:
 			op.A = rapid.IntRange(0, 400).Draw(t, "a")
 		}
 		switch k {
-		case "after", "afterI", "afterAbsent", "drain", "deep", "cursor", "cursorI", "asc", "desc", "zig", "ascL", "descL", "shape",
+		case "after", "afterI", "afterAbsent", "drain", "deep", "cursor", "cursorI", "asc", "desc", "zig", "ascL", "descL", "combA", "combD", "combAL", "combDL", "shape",
 			"inorder", "seqKeep", "seqRange":
 			op.B = rapid.IntRange(0, 400).Draw(t, "b")
 		}
@@ -101,9 +101,9 @@ func genTreeCase(depth bool) func(t *rapid.T) TreeCase {
 			}
 			run := rapid.SampledFrom([]string{"asc", "desc", "zig"}).Draw(t, "runKind")
 			ins(Op{Kind: run, A: rapid.IntRange(7, 39).Draw(t, "runLen"), B: rapid.IntRange(0, 2).Draw(t, "runVia")})
-			if depth && c.Beta >= 900 && rapid.Bool().Draw(t, "long") {
+			if depth && c.Beta >= 800 && rapid.Bool().Draw(t, "long") {
 				// loose factors: only a long path-extending run gets near the bound
-				ins(Op{Kind: rapid.SampledFrom([]string{"ascL", "descL"}).Draw(t, "longKind"), A: rapid.IntRange(0, 1399).Draw(t, "longLen"), B: rapid.IntRange(0, 2).Draw(t, "longVia")})
+				ins(Op{Kind: rapid.SampledFrom([]string{"ascL", "descL", "ascL", "descL", "combAL", "combDL"}).Draw(t, "longKind"), A: rapid.IntRange(0, 1399).Draw(t, "longLen"), B: rapid.IntRange(0, 2).Draw(t, "longVia")})
 			}
 			if depth && c.Beta <= 300 && rapid.IntRange(0, 3).Draw(t, "shaped") == 0 {
 				// tight factors: a lopsided but nowhere badly split shape
@@ -195,7 +195,7 @@ func runC02(c TreeCase, o *vk.Obs) string {
 	o.ClassIf(c.Beta >= 900, "beta>=900")
 	classElem(o, c.Elem, c.Rev)
 	for _, op := range c.Ops {
-		if op.Kind == "ascL" || op.Kind == "descL" {
+		if op.Kind == "ascL" || op.Kind == "descL" || op.Kind == "combAL" || op.Kind == "combDL" {
 			o.Class("long_monotone_run(300..1700)")
 			break
 		}
